@@ -62,7 +62,13 @@ def run_once(case: Dict[str, Any], oracles: Sequence[str], res: CaseResult, M: M
     for name in oracles:
         if name == "values":
             if out.exc is None and out.ref_exc is None and out.value != out.ref_value and case.get("call") != "setup":
-                res.viol("value", f"returned {out.value!r}, reference {out.ref_value!r}" + tag)
+                if case.get("debug") and case.get("sel") and isinstance(out.value, tuple) and len(out.value) == len(M.sites):
+                    # debug nodes pulled into a sub-graph run by the debug rule are C13's business
+                    keep = [i for i, s_ in enumerate(M.sites) if not M.spec[s_].get("debug")]
+                    if [out.value[i] for i in keep] != [out.ref_value[i] for i in keep]:
+                        res.viol("value", f"returned {out.value!r}, reference {out.ref_value!r} (non-debug positions differ)" + tag)
+                else:
+                    res.viol("value", f"returned {out.value!r}, reference {out.ref_value!r}" + tag)
             if out.exc is None and isinstance(out.ref_exc, (KeyError, IndexError)):
                 res.viol("bad-index-not-raised", f"the function body raises {type(out.ref_exc).__name__} on a bad index, the call returned {out.value!r}" + tag)
         elif name == "dep_order":
@@ -196,6 +202,7 @@ def sched_case(
     n_setup: int = 0,
     n_debug: int = 0,
     setup_call_rate: float = 0.0,
+    flag_rate: float = 0.0,
 ) -> Dict[str, Any]:
     mode = draw(st.sampled_from(list(modes)))
     res_pool = list(resources)
@@ -204,6 +211,8 @@ def sched_case(
     ms = max_sites
     if mode == "ctl-ex":
         ms = min(max_sites, 6)
+    if flag_rate and draw(st.floats(0, 1)) < flag_rate:
+        flags = True
     kinds = list(dep_kinds) + (["flag"] if flags else [])
     sel_on = bool(sel_rate) and draw(st.floats(0, 1)) < sel_rate
     P = draw(gen.flat_prog(min_sites=min_sites, max_sites=ms, max_deps=max_deps, resources=res_pool, prio_range=prio,
@@ -212,6 +221,17 @@ def sched_case(
                            n_setup=draw(st.integers(0, n_setup)) if n_setup else 0,
                            n_debug=draw(st.integers(0, n_debug)) if n_debug else 0))
     sites = [s["site"] for s in P["body"]]
+    fn_uses: Dict[str, int] = {}
+    for s in P["body"]:
+        fn_uses[s["fn"]] = fn_uses.get(s["fn"], 0) + 1
+    for s in P["body"]:
+        f = P["fns"][s["fn"]]
+        # a debug node with a constant argument (the site marker) is never pulled in by the debug rule
+        if f.get("debug") and fn_uses[s["fn"]] == 1 and draw(st.sampled_from([True, True, False])):
+            s["mark"] = False
+        # a flagged node is often sequential: deactivated sequential candidates are a corner of their own
+        if s.get("active") is not None and seq_rate and fn_uses[s["fn"]] == 1 and draw(st.booleans()):
+            f["seq"] = True
     case: Dict[str, Any] = {"prog": P, "mc": draw(st.integers(min_mc, max_mc)), "async": draw(st.booleans()), "mode": mode}
     if flags:
         # flag producers return a constant of known truthiness
@@ -245,6 +265,15 @@ def sched_case(
         case.pop("failing", None)
     if n_debug and draw(st.booleans()):
         case["debug"] = True
+        deps_ = gen.deps_of(P)
+        dbg = [s["site"] for s in P["body"] if P["fns"][s["fn"]].get("debug") and deps_[s["site"]] and not s["mark"]]
+        if dbg and sel_rate and case.get("call") != "setup" and draw(st.booleans()):
+            # target the parents of a debug node (plus other nodes): the debug rule pulls the debug node into the
+            # sub-graph run, where it competes with the other selected nodes
+            d = draw(st.sampled_from(dbg))
+            others = [x for x in sites if not P["fns"][[b for b in P["body"] if b["site"] == x][0]["fn"]].get("debug")]
+            extra = draw(st.lists(st.sampled_from(others), min_size=0, max_size=3, unique=True)) if others else []
+            case["sel"] = {"T": sorted(set(deps_[d]) | set(extra))}
     if case["async"] and draw(st.sampled_from([True, False, False, False])):
         case["small_loop_pool"] = True  # AsyncDAG awaited in a loop whose default executor has a single worker
     if reconf_rate and draw(st.floats(0, 1)) < reconf_rate:
